@@ -282,6 +282,35 @@ func genCases(thorough bool) []Case {
 			}
 		}
 	}
+	// ---- staggered blocks: a device hands out one block per cycle, so one-warp blocks of n, n-1 instructions on
+	// two SMs finish in the same cycle and both reports wait in the device's port while further blocks are
+	// still to be handed out; every sequence of 3..5 one-warp blocks over 1..3 instructions, and the same
+	// followed by a second kernel (seed C20-7: all waiting reports taken in one cycle, the first SM freed k times)
+	var seqs func(n int) [][]int
+	seqs = func(n int) [][]int {
+		if n == 0 {
+			return [][]int{{}}
+		}
+		var out [][]int
+		for _, t := range seqs(n - 1) {
+			for a := 1; a <= 3; a++ {
+				out = append(out, append(append([]int{}, t...), a))
+			}
+		}
+		return out
+	}
+	for n := 3; n <= 5; n++ {
+		for _, q := range seqs(n) {
+			var blocks [][]int
+			for _, a := range q {
+				blocks = append(blocks, []int{a})
+			}
+			add("staggered-blocks", [][][]int{blocks})
+			if n == 3 {
+				add("staggered-blocks", [][][]int{blocks, {{2}, {1}, {2}}})
+			}
+		}
+	}
 	// ---- wide blocks: more warps per block than a 4-entry port buffer / than sub-cores
 	for _, k := range []int{1, 2} {
 		for _, nb := range []int{1, 2} {
